@@ -584,6 +584,42 @@ def sync_matrix():
     return n, viol, samples
 
 
+def dropped_handle_cases():
+    """the requester registers a callback and lets go of the handle (`async_(f)(x).add_callback(cb)`), or hands the callback
+    to the connection directly: the reply must still be delivered to it, once"""
+    viol = []
+    n = 0
+    for how in ("add_callback-then-drop-the-handle", "raw-callback"):
+        for kind in ("val", "exc"):
+            n += 1
+            box = {}
+
+            def main():
+                sy = Sys("async", None)
+                c = sy.conn
+                ran = []
+                if how == "raw-callback":
+                    c._async_request(consts.HANDLE_PING, ("tok",), callback=lambda is_exc, obj: ran.append((is_exc, obj if not is_exc else type(obj).__name__)))
+                else:
+                    c.async_request(consts.HANDLE_PING, "tok").add_callback(lambda r: ran.append((r.error, "tok" if not r.error else "exc")))
+                gc.collect()
+                msgs = sy.peer_drain()
+                sy.req_seq = msgs[0][1]
+                sy.b.write(sy.reply_bytes(kind))
+                c.serve(0)
+                box["ran"] = list(ran)
+                box["left"] = len(c._request_callbacks)
+            gc.disable()
+            sch = S.Scheduler((), sync_points=False, io_points=False, horizon=100)
+            sch.run(main)
+            gc.disable()
+            if sch.outcome != "done" or "ran" not in box:
+                viol.append(("dropped-handle:harness:%s" % sch.outcome, "%s %s %r" % (how, kind, sch.threads[0].exc)))
+            elif len(box["ran"]) != 1:
+                viol.append(("dropped-handle:callback-ran-%d-times" % len(box["ran"]), "%s, reply kind %s: the reply arrived, the callback ran %r" % (how, kind, box["ran"])))
+    return n, viol
+
+
 def replay(rep):
     THOROUGH[0] = rep.get("tier") == "thorough"
     env.silence_unraisable()
@@ -621,6 +657,11 @@ def main(tier, replay_obj=None):
     res.traces += n
     for s in samples:
         res.add_sample(s)
+    for sig, text in viol:
+        res.violation(sig, text, {"part": "sync-matrix"})
+    n, viol = dropped_handle_cases()
+    res.evaluations += n
+    res.parts["dropped-handle"] = {"cases": n}
     for sig, text in viol:
         res.violation(sig, text, {"part": "sync-matrix"})
     for mode, T in cfg["modes"]:
